@@ -74,7 +74,14 @@ pub enum Case {
     Madvise { pages: u8, off: u8, len: u8, advice: u8 },
     Wait { code: u8 },
     /// metadata() of files of every type, all fields, against statx(2) on the same object.
-    Meta { target: u8, mode: u16, size: u16 },
+    Meta {
+        target: u8,
+        mode: u16,
+        size: u16,
+        /// (mtime s, ns, atime s, ns) set with futimens(2) before the query.
+        #[serde(default)]
+        times: Option<(i64, u32, i64, u32)>,
+    },
     /// Operations on buffers from a ReadBufPool.
     PoolIo { dgram: bool, peek: bool, len: u16, pool_log2: u8, file_off: Option<u16> },
 }
@@ -82,13 +89,22 @@ pub enum Case {
 struct Real {
     ring: Ring,
     sq: SubmissionQueue,
+    /// Findings after which the case goes on: (signature, message). Reported
+    /// when the case is over (known findings are counted, anything else is the
+    /// case's violation unless an earlier one was reported).
+    soft: Vec<(String, String)>,
+}
+
+/// The error of an operation io_uring cannot perform on a direct descriptor.
+fn is_unsupported(e: &io::Error) -> bool {
+    e.kind() == io::ErrorKind::Unsupported || e.raw_os_error() == Some(libc::EOPNOTSUPP)
 }
 
 impl Real {
     fn new() -> io::Result<Real> {
         let ring = Ring::config().with_submission_queue_size(16).with_direct_descriptors(64).build()?;
         let sq = ring.sq();
-        Ok(Real { ring, sq })
+        Ok(Real { ring, sq, soft: Vec::new() })
     }
 
     /// Drive a future to completion on the real ring.
@@ -225,7 +241,7 @@ impl Property for C13 {
             2 => (1u16..5000, any::<bool>()).prop_map(|(payload, clone_first)| Case::Convert { payload, clone_first }),
             2 => (1u8..6, 0u8..6, 0u8..7, 0u8..5).prop_map(|(pages, off, len, advice)| Case::Madvise { pages, off, len, advice }),
             1 => any::<u8>().prop_map(|code| Case::Wait { code }),
-            2 => (0u8..5, 0u16..0o1000, 0u16..9000).prop_map(|(target, mode, size)| Case::Meta { target, mode, size }),
+            2 => (0u8..5, 0u16..0o1000, 0u16..9000, proptest::option::weighted(0.6, (file_secs(), 0u32..1_000_000_000, file_secs(), prop_oneof![Just(0u32), Just(999_999_999u32), 0u32..1_000_000_000]))).prop_map(|(target, mode, size, times)| Case::Meta { target, mode, size, times }),
             3 => (any::<bool>(), any::<bool>(), 1u16..4000, 0u8..3, proptest::option::weighted(0.5, 0u16..6000)).prop_map(|(dgram, peek, len, pool_log2, file_off)| Case::PoolIo { dgram, peek, len, pool_log2, file_off }),
         ]
         .boxed()
@@ -258,9 +274,12 @@ impl Property for C13 {
             Case::Convert { payload, clone_first } => run_convert(&mut real, *payload, *clone_first, &mut classes),
             Case::Madvise { pages, off, len, advice } => run_madvise(&mut real, *pages, *off, *len, *advice, &mut classes),
             Case::Wait { code } => run_wait(&mut real, *code, &mut classes),
-            Case::Meta { target, mode, size } => run_meta(&mut real, *target, *mode, *size, &mut classes),
+            Case::Meta { target, mode, size, times } => run_meta(&mut real, *target, *mode, *size, *times, &mut classes),
             Case::PoolIo { dgram, peek, len, pool_log2, file_off } => run_pool_io(&mut real, *dgram, *peek, *len, *pool_log2, *file_off, &mut classes),
         };
+        for (sig, msg) in std::mem::take(&mut real.soft) {
+            ctx.violation(&format!("C13:{sig}"), msg);
+        }
         if let Err(e) = res {
             if let Some(msg) = e.strip_prefix("infra:") {
                 ctx.infra(msg.to_string());
@@ -916,6 +935,26 @@ fn a10_stream_pair(real: &mut Real, family: AddrFamily, direct: bool, scratch: &
         let (s, a) = real.block_on(listener.accept::<std::net::SocketAddr>())?.map_err(|e| format!("failure-vs-success:accept: {e}"))?;
         (s, a.to_string())
     };
+    // The client's view (regular or direct descriptor): its peer is the
+    // listener's address, its own address is what accept reported.
+    {
+        let at = if direct { "@direct" } else { "" };
+        let (got_peer, got_local): (io::Result<String>, io::Result<String>) = if unix {
+            (real.block_on(client.peer_addr::<std::os::unix::net::SocketAddr>())?.map(|a| unix_desc(&a)), real.block_on(client.local_addr::<std::os::unix::net::SocketAddr>())?.map(|a| unix_desc(&a)))
+        } else {
+            (real.block_on(client.peer_addr::<std::net::SocketAddr>())?.map(|a| a.to_string()), real.block_on(client.local_addr::<std::net::SocketAddr>())?.map(|a| a.to_string()))
+        };
+        for (what, got, want) in [("peer_addr", got_peer, &want_local), ("local_addr", got_local, &peer_seen)] {
+            match got {
+                Ok(got) if &got == want => {}
+                Ok(got) => return Err(format!("address:client.{what}{at}: a10 reports {got} for the connected client, the other side says {want}")),
+                // No way to ask the kernel about a direct descriptor: a10 says
+                // so (the twin, getsockname(2) on the same socket, works).
+                Err(e) if direct && is_unsupported(&e) => real.soft.push(("failure-vs-success:socket-name@direct:unsupported".into(), format!("{what} on a direct descriptor: {e}"))),
+                Err(e) => return Err(format!("failure-vs-success:client.{what}{at}: {e} (getsockname(2)/getpeername(2) on the same socket report {want})")),
+            }
+        }
+    }
     // The peer address accept returned vs getpeername on the accepted socket.
     if let Some(afd) = accepted.as_fd() {
         let want = std_peer_addr(afd.as_raw_fd(), unix);
@@ -1359,6 +1398,31 @@ fn run_sockopt(real: &mut Real, which: u8, value: u32, tcp: bool, classes: &mut 
             set_then_read_u32!(option::TcpKeepAliveIdle, libc::IPPROTO_TCP, libc::TCP_KEEPIDLE, "TCP_KEEPIDLE", small)
         }
         _ => set_then_read_bool!(option::KeepAlive, libc::SOL_SOCKET, libc::SO_KEEPALIVE, "SO_KEEPALIVE"),
+    }
+    // Options of a direct descriptor: set and read through a10, then the
+    // descriptor is installed as a regular one and read through libc.
+    if tcp && value % 3 == 0 {
+        classes.push("direct-descriptor");
+        let d = real.block_on(a10::net::socket(real.sq.clone(), Domain::IPV4, Type::STREAM, None).kind(Kind::Direct))?.map_err(|e| format!("infra:socket(direct): {e}"))?;
+        let tcp_level = which % 2 == 0;
+        let set = if tcp_level { real.block_on(d.set_socket_option::<option::TcpNoDelay>(on))? } else { real.block_on(d.set_socket_option::<option::KeepAlive>(on))? };
+        let get = if tcp_level { real.block_on(d.socket_option::<option::TcpNoDelay>())? } else { real.block_on(d.socket_option::<option::KeepAlive>())? };
+        let label = if tcp_level { "TCP_NODELAY" } else { "SO_KEEPALIVE" };
+        let regular = real.block_on(d.to_file_descriptor())?.map_err(|e| format!("infra:to_file_descriptor: {e}"))?;
+        let rfd = regular.as_fd().unwrap().as_raw_fd();
+        let raw = if tcp_level { getsockopt_int(rfd, libc::IPPROTO_TCP, libc::TCP_NODELAY) } else { getsockopt_int(rfd, libc::SOL_SOCKET, libc::SO_KEEPALIVE) };
+        match set {
+            Ok(()) if (raw != 0) != on => return Err(format!("sockopt:{label}@direct: set {on} through a10 on a direct descriptor, getsockopt(2) on the same socket reads {raw}")),
+            Ok(()) => {}
+            Err(e) if is_unsupported(&e) => real.soft.push(("failure-vs-success:sockopt@direct:unsupported".into(), format!("set {label} on a direct descriptor: {e}"))),
+            Err(e) => return Err(format!("failure-vs-success:set {label}@direct: {e} (setsockopt(2) on the same socket works)")),
+        }
+        match get {
+            Ok(v) if v != (raw != 0) => return Err(format!("sockopt:{label}@direct: a10 reads {v} from a direct descriptor, getsockopt(2) on the same socket reads {raw}")),
+            Ok(_) => {}
+            Err(e) if is_unsupported(&e) => real.soft.push(("failure-vs-success:sockopt@direct:unsupported".into(), format!("get {label} on a direct descriptor: {e}"))),
+            Err(e) => return Err(format!("failure-vs-success:get {label}@direct: {e} (getsockopt(2) on the same socket reads {raw})")),
+        }
     }
     // A second round through the synchronous flavour of the API and the
     // remaining option types.
@@ -1900,7 +1964,17 @@ fn run_pool_io(real: &mut Real, dgram: bool, peek: bool, len: u16, pool_log2: u8
     Ok(())
 }
 
-fn run_meta(real: &mut Real, target: u8, mode: u16, size: u16, classes: &mut Vec<&'static str>) -> Result<(), String> {
+/// File times in seconds since the epoch: around now, before 1970, after 2038.
+fn file_secs() -> impl Strategy<Value = i64> {
+    prop_oneof![
+        3 => 0i64..2_000_000_000,
+        3 => -2_000_000_000i64..0,
+        1 => Just(-1i64),
+        2 => 2_147_483_648i64..8_000_000_000,
+    ]
+}
+
+fn run_meta(real: &mut Real, target: u8, mode: u16, size: u16, times: Option<(i64, u32, i64, u32)>, classes: &mut Vec<&'static str>) -> Result<(), String> {
     use std::os::unix::fs::{MetadataExt, PermissionsExt};
     let scratch = Scratch::new("meta");
     let p = scratch.dir.join("obj");
@@ -1935,6 +2009,17 @@ fn run_meta(real: &mut Real, target: u8, mode: u16, size: u16, classes: &mut Vec
     };
     let Some(bfd) = fa.as_fd() else { return Err("infra:no raw fd".into()) };
     raw_fd = bfd.try_clone_to_owned().map_err(|e| format!("infra:{e}"))?;
+    if let Some((ms, mns, as_, ans)) = times {
+        use std::os::fd::AsRawFd;
+        let ts = [libc::timespec { tv_sec: as_, tv_nsec: ans as i64 }, libc::timespec { tv_sec: ms, tv_nsec: mns as i64 }];
+        // (Where the object or the file system refuses, the times stay.)
+        if unsafe { libc::futimens(raw_fd.as_raw_fd(), ts.as_ptr()) } == 0 {
+            classes.push("times-set");
+            if ms < 0 || as_ < 0 {
+                classes.push("time-before-1970");
+            }
+        }
+    }
     let m = real.block_on(fa.metadata())?.map_err(|e| format!("failure-vs-success:metadata: {e}"))?;
     // Reference: fstat through std on the same open file description.
     let f = std::fs::File::from(raw_fd);
@@ -1981,16 +2066,30 @@ fn run_meta(real: &mut Real, target: u8, mode: u16, size: u16, classes: &mut Vec
     if m.block_size() as u64 != st.blksize() {
         diffs.push(format!("block_size {} vs st_blksize {}", m.block_size(), st.blksize()));
     }
-    let ts = |t: std::time::SystemTime| t.duration_since(std::time::UNIX_EPOCH).map(|d| (d.as_secs() as i64, d.subsec_nanos() as i64)).unwrap_or((-1, -1));
-    if ts(m.modified()) != (st.mtime(), st.mtime_nsec()) {
-        diffs.push(format!("modified {:?} vs st_mtime {:?}", ts(m.modified()), (st.mtime(), st.mtime_nsec())));
+    // (seconds, nanoseconds) relative to the epoch, as struct timespec has them.
+    let ts = |t: std::time::SystemTime| match t.duration_since(std::time::UNIX_EPOCH) {
+        Ok(d) => (d.as_secs() as i64, d.subsec_nanos() as i64),
+        Err(e) => {
+            let d = e.duration();
+            if d.subsec_nanos() == 0 { (-(d.as_secs() as i64), 0) } else { (-(d.as_secs() as i64) - 1, 1_000_000_000 - d.subsec_nanos() as i64) }
+        }
+    };
+    let guarded = |what: &str, f: &dyn Fn() -> std::time::SystemTime| -> Result<(i64, i64), String> { crate::runner::catch(|| f()).map(ts).map_err(|(msg, loc)| format!("{what}() panicked at {loc}: {msg}")) };
+    match guarded("modified", &|| m.modified()) {
+        Ok(got) if got != (st.mtime(), st.mtime_nsec()) => diffs.push(format!("modified {got:?} vs st_mtime {:?}", (st.mtime(), st.mtime_nsec()))),
+        Ok(_) => {}
+        Err(e) => diffs.push(format!("{e} (st_mtime {:?})", (st.mtime(), st.mtime_nsec()))),
     }
-    if ts(m.accessed()) != (st.atime(), st.atime_nsec()) {
-        diffs.push(format!("accessed {:?} vs st_atime {:?}", ts(m.accessed()), (st.atime(), st.atime_nsec())));
+    match guarded("accessed", &|| m.accessed()) {
+        Ok(got) if got != (st.atime(), st.atime_nsec()) => diffs.push(format!("accessed {got:?} vs st_atime {:?}", (st.atime(), st.atime_nsec()))),
+        Ok(_) => {}
+        Err(e) => diffs.push(format!("{e} (st_atime {:?})", (st.atime(), st.atime_nsec()))),
     }
     if let Ok(created) = st.created() {
-        if ts(m.created()) != ts(created) {
-            diffs.push(format!("created {:?} vs statx btime {:?}", ts(m.created()), ts(created)));
+        match guarded("created", &|| m.created()) {
+            Ok(got) if got != ts(created) => diffs.push(format!("created {got:?} vs statx btime {:?}", ts(created))),
+            Ok(_) => {}
+            Err(e) => diffs.push(e),
         }
     }
     if !diffs.is_empty() {
